@@ -686,31 +686,4 @@ theorem closestRow_isSome (t : Mat (Option Rat)) (o : Nat) (x : Rat) (r : Nat) (
     refine nanargminV_spec.nanargminV_none _ h r (absR (g - x)) ?_
     simp [List.getElem?_range hr, hg]
 
-theorem mpeGo_self (close : Rat → Rat → Bool) (hc : ∀ a, close a a = true) (t : Mat (Option Rat))
-    (freqRef : List Rat) (order : List Nat) : ∀ (rest : List Rat) (ii : Nat),
-    (∀ k (hk : k < rest.length), ∃ o, order[ii + k]? = some o ∧ IsPole (.stab t) (rest[k], o)
-        ∧ rest[k] ∈ freqRef) →
-    mpeGo close t freqRef order ii rest = some rest
-  | [], _, _ => rfl
-  | fj :: rest, ii, h => by
-    obtain ⟨o, ho, ⟨r, hr, hg⟩, hmem⟩ := h 0 (by simp)
-    simp only [Nat.add_zero, List.getElem_cons_zero] at ho hg hmem
-    have ih := mpeGo_self close hc t freqRef order rest (ii + 1) (by
-      intro k hk
-      have := h (k + 1) (by simpa using hk)
-      simpa [Nat.add_assoc, Nat.add_comm 1 k] using this)
-    obtain ⟨sel, v, hcr⟩ := closestRow_isSome t o fj r fj hr hg
-    obtain ⟨_, f, hf, _, hmin, _⟩ := closestRow_spec t o fj sel v hcr
-    have h0 := hmin r fj hr hg
-    have hz : absR (fj - fj) = 0 := by simp [absR]
-    rw [hz] at h0
-    have hff : f = fj := by
-      have := absR_eq_zero (le_antisymm h0 (absR_nonneg _))
-      linarith
-    subst hff
-    unfold mpeGo
-    simp only [ho, hcr, hf, ih]
-    have : freqRef.any (close f) = true := List.any_eq_true.mpr ⟨f, hmem, hc f⟩
-    simp [this]
-
 end PV.Pick
